@@ -29,7 +29,7 @@ ASSUMPTIONS = [
     "the in-memory side of the comparison is the library's own Result/CsvPath objects; the disk side is read with json/csv/hashlib only",
 ]
 REAL = REAL_ALL
-STUB = STUB_ALL + ["a pass-through tee around CsvLineSpooler.append records what the run handed to the archive"]
+STUB = STUB_ALL + ["open() of data.csv/unmatched.csv during a run with spool_fault: the nth write stores a prefix and raises ENOSPC (disk-full fault)", "a pass-through tee around CsvLineSpooler.append records what the run handed to the archive"]
 
 POLICIES = [["collect", "print"], ["collect"], ["collect", "fail"], ["collect", "stop", "print"], ["print"], ["collect", "fail", "stop", "print"], ["collect", "quiet"], ["quiet", "fail", "print"]]
 
@@ -88,6 +88,10 @@ def generate(rng, i, tier):
         if rng.random() < 0.15:
             # a caller that starts a generator run on this instance and walks away after a few lines
             run["abandoned_before"] = {"method": rng.choice(["next_paths", "next_paths_collect", "next_by_line"]), "after": rng.randint(1, 3), "tick_s": rng.choice([0, 1])}
+        if rng.random() < 0.08:
+            # one write to a member's data.csv / unmatched.csv stores only part of its bytes and fails (disk full).  The run may
+            # raise, or return with the failure on record; if it returns WITHOUT any record of it, the archive must be right
+            run["spool_fault"] = {"cut": rng.choice([0.0, 0.5, 0.5, 1.0]), "nth": rng.randint(1, 4)}
         if rng.random() < 0.12:
             # a manager call on this instance failed just before (a directory that is not there, a torn json file):
             # whatever the instance keeps of that must not leak into the archive of the run
@@ -128,6 +132,10 @@ def reductions(sc):
         if r.get("failed_call_before"):
             c = with_(sc)
             del c["runs"][j]["failed_call_before"]
+            yield c
+        if r.get("spool_fault"):
+            c = with_(sc)
+            del c["runs"][j]["spool_fault"]
             yield c
         if r.get("abandoned_before"):
             c = with_(sc)
@@ -261,6 +269,65 @@ def check_run_archive(out, cs, group, members, where, *, collecting, caller_line
     return run_dir, kinds
 
 
+class _TornSpool:
+    """Disk-full seam for the spooled result files: while active, the nth write to a file called data.csv or
+    unmatched.csv (opened for writing/appending) stores only `cut` of its bytes and raises ENOSPC, once."""
+
+    def __init__(self, cut, nth):
+        self.cut = cut
+        self.nth = nth
+        self.state = {"fired": 0, "writes": 0}
+
+    def __enter__(self):
+        import builtins
+
+        self.real = real = builtins.open
+        st, cut, nth = self.state, self.cut, self.nth
+
+        class Torn:
+            def __init__(self, f):
+                self.f = f
+
+            def write(self, data):
+                if st["fired"]:
+                    return self.f.write(data)
+                st["writes"] += 1
+                if st["writes"] < nth:
+                    return self.f.write(data)
+                st["fired"] = 1
+                self.f.write(data[: int(len(data) * cut)])
+                self.f.flush()
+                raise OSError(28, "No space left on device (simulated)")
+
+            def __enter__(self):
+                self.f.__enter__()
+                return self
+
+            def __exit__(self, *a):
+                return self.f.__exit__(*a)
+
+            def __iter__(self):
+                return iter(self.f)
+
+            def __getattr__(self, name):
+                return getattr(self.f, name)
+
+        def opener(file, mode="r", *a, **kw):
+            f = real(file, mode, *a, **kw)
+            if not st["fired"] and isinstance(file, str) and os.path.basename(file) in ("data.csv", "unmatched.csv") and any(c in mode for c in "wax") and "b" not in mode:
+                return Torn(f)
+            return f
+
+        builtins.open = opener
+        return self
+
+    def __exit__(self, *a):
+        import builtins
+
+        builtins.open = self.real
+        return False
+
+
 def execute(sc):
     out = Out()
     install_tee()
@@ -324,9 +391,20 @@ def execute(sc):
             TEE.clear()
             meth = run["method"]
             where = f"run {ri} ({meth}, {run['inst']} instance{', after an abandoned ' + ab['method'] if ab else ''}{', after a failed ' + fc if fc else ''})"
+            sf = run.get("spool_fault") if "collect" in sc["policy"] else None
+            torn = _TornSpool(sf["cut"], sf["nth"]) if sf else None
             try:
-                lines = ops.run_group(cs, meth, "g")
+                if torn:
+                    with torn:
+                        lines = ops.run_group(cs, meth, "g")
+                else:
+                    lines = ops.run_group(cs, meth, "g")
             except Exception as e:  # noqa: BLE001
+                if torn and torn.state["fired"] and (ops.in_repo(e) or isinstance(e, OSError)):
+                    # the disk error surfaced: the run did not return, the statement is not engaged
+                    out.fault("torn_spool_write")
+                    out.log("spool-fault-raise", ops.exc_sig(e))
+                    break
                 if ri == 0 and _is_program_problem(e):
                     out.discard = True
                     out.log("discard", ops.exc_sig(e))
@@ -338,6 +416,14 @@ def execute(sc):
                     break
                 raise
             out.runs += 1
+            if torn and torn.state["fired"]:
+                out.fault("torn_spool_write")
+                on_record = any("No space left" in f"{e.error}" for r in ops.results_of(cs, "g") for e in (r.errors or []))
+                if on_record:
+                    # acknowledged failure: the member's files may be short of (or torn at) the failed write
+                    out.log("spool-fault-on-record")
+                    break
+                out.extra["runs_that_returned_without_a_record_of_the_failed_write"] = out.extra.get("runs_that_returned_without_a_record_of_the_failed_write", 0) + 1
             run_dir, kinds = check_run_archive(
                 out, cs, "g", sc["members"], where, collecting=meth in ops.COLLECTING, facts={"method": meth, "run": ri, "inst": run["inst"]},
                 allow_unstarted=any("stop_all()" in c for m in sc["members"] for c in m["comps"]),
